@@ -1,6 +1,7 @@
 package client
 
 import (
+	"bytes"
 	"encoding/binary"
 	"fmt"
 	"io"
@@ -185,11 +186,13 @@ func sendTCP(conn *net.TCPConn, b []byte) ([]byte, error) {
 	}
 	s := binary.BigEndian.Uint32(sh)
 
-	rb := make([]byte, s, s)
-	_, err = io.ReadFull(conn, rb)
+	// Read the response as it arrives rather than allocating the size the peer announced
+	var buf bytes.Buffer
+	_, err = io.CopyN(&buf, conn, int64(s))
 	if err != nil {
 		return r, fmt.Errorf("error reading response: %v", err)
 	}
+	rb := buf.Bytes()
 	if len(rb) < 1 {
 		return r, fmt.Errorf("no response data from KDC %s", conn.RemoteAddr().String())
 	}
